@@ -125,9 +125,22 @@ fn osz_none(_: u16) -> Option<u32> {
     None
 }
 
+/// a synthetic table with pre-agreed sizes 0, 1, 2, 3 (no bundled protocol has a zero entry; the
+/// property quantifies over "item lengths 0..3 with pre-agreed and explicit item sizes")
+fn osz_syn(t: u16) -> Option<u32> {
+    match t {
+        40 => Some(0),
+        41 => Some(1),
+        42 => Some(2),
+        43 => Some(3),
+        _ => None,
+    }
+}
+
 fn parse_osz(s: &str) -> Option<ObjSize> {
     Some(match s {
         "none" => osz_none,
+        "syn" => osz_syn,
         "ddnet" => libtw2_gamenet_ddnet::snap_obj::obj_size,
         "tw06" => libtw2_gamenet_teeworlds_0_6::snap_obj::obj_size,
         "tw07" => libtw2_gamenet_teeworlds_0_7::snap_obj::obj_size,
@@ -662,7 +675,9 @@ impl R {
                 srt = "1";
             }
         }
-        let in_ref = ai.iter().all(|x| x.0 < 0x8000) && bi.iter().all(|x| x.0 < 0x8000) && agree && okb;
+        // (a pre-agreed size of 0 means "unset" in the reference's table: outside its domain)
+        let zero_sized = ai.iter().chain(bi.iter()).any(|x| osz(x.0) == Some(0));
+        let in_ref = ai.iter().all(|x| x.0 < 0x8000) && bi.iter().all(|x| x.0 < 0x8000) && agree && okb && !zero_sized;
         let part2 = if in_ref {
             let ua = unsigned_sorted(ai);
             let ub = unsigned_sorted(bi);
@@ -1258,7 +1273,7 @@ fn vm_step(vm: &mut Vm, tok: &str, o: &mut Oracle) {
 
 // ---- the small universe of the exhaustive sweeps (mirrors uniKeys / uniItem / uniSnap)
 
-const UNI_KEYS: [(u16, u16); 4] = [(13, 1), (32769, 7), (0, 16384), (16384, 2)];
+const UNI_KEYS: [(u16, u16); 6] = [(13, 1), (32769, 7), (0, 16384), (16384, 2), (40, 3), (42, 9)];
 const UNI_VALS: [i32; 5] = [0, 1, -1, i32::MIN, i32::MAX];
 
 fn uni_item(c: usize) -> Option<Vec<i32>> {
@@ -1387,7 +1402,7 @@ impl Runner for R {
 // ---------------------------------------------------------------------------------------------
 // generators
 
-const TYPES: [u16; 22] = [1, 2, 5, 12, 13, 14, 20, 23, 24, 63, 64, 100, 0x3fff, 0x4000, 0x4001, 0x7fff, 0x8000, 0x8001, 0xfffe, 0xffff, 0, 0];
+const TYPES: [u16; 26] = [1, 2, 5, 12, 13, 14, 20, 23, 24, 40, 40, 41, 42, 63, 64, 100, 0x3fff, 0x4000, 0x4001, 0x7fff, 0x8000, 0x8001, 0xfffe, 0xffff, 0, 0];
 const IDS: [u16; 8] = [0, 1, 2, 7, 0x3fff, 0x4000, 0x7fff, 0xffff];
 const VALS: [i32; 9] = [0, 1, -1, i32::MIN, i32::MAX, 2, -2, i32::MIN + 1, i32::MAX - 1];
 
@@ -1691,7 +1706,8 @@ fn gen_all(tier: &str, seed: u64, w: &mut dyn Write) {
     {
         let mut rng = Rng::new(seed ^ 0x736e_6170);
         let thorough = tier == "thorough";
-        let tables: [(&str, ObjSize); 4] = [
+        let tables: [(&str, ObjSize); 5] = [
+            ("syn", osz_syn),
             ("none", osz_none),
             ("ddnet", libtw2_gamenet_ddnet::snap_obj::obj_size),
             ("tw07", libtw2_gamenet_teeworlds_0_7::snap_obj::obj_size),
@@ -1706,6 +1722,11 @@ fn gen_all(tier: &str, seed: u64, w: &mut dyn Write) {
             ("none", 0b0111, 4),  // three keys (incl. type >= 0x8000 and a registry item), absent / [] / [0] / [1]
             ("ddnet", 0b1101, 4), // three keys inside the reference's domain
             ("none", 0b1111, 3),
+            // pre-agreed sizes 0 and 2 (table `syn`): a zero-size type alone (absent / empty / one
+            // value), and with a sized and an unsized neighbour
+            ("syn", 0b010000, 7),
+            ("syn", 0b110001, 4),
+            ("syn", 0b100000, 32),
         ];
         if thorough {
             sweeps.push(("none", 0b0111, 7));
@@ -1732,7 +1753,7 @@ fn gen_all(tier: &str, seed: u64, w: &mut dyn Write) {
         // 2. random pairs
         let n = if thorough { 60000 } else { 4000 };
         for i in 0..n {
-            let (name, osz) = tables[i % 4];
+            let (name, osz) = tables[i % 5];
             let low_only = rng.chance(1, 2);
             let na = *rng.pick(&[0usize, 1, 2, 3, 5, 8, 20]);
             let a = gen_items(&mut rng, osz, na, low_only);
@@ -1747,7 +1768,7 @@ fn gen_all(tier: &str, seed: u64, w: &mut dyn Write) {
         // pairs at the limits
         let nbig = if thorough { 60 } else { 6 };
         for i in 0..nbig {
-            let (name, osz) = tables[i % 2];
+            let (name, osz) = tables[1 + i % 2];
             let low_only = i % 3 != 0;
             let (n_items, total) = match i % 6 {
                 0 => (1024, 0),
@@ -1761,6 +1782,21 @@ fn gen_all(tier: &str, seed: u64, w: &mut dyn Write) {
             let b = gen_target(&mut rng, osz, &a, low_only, false);
             writeln!(w, "pair {} {} {}", name, fmt_items(&a), fmt_items(&b)).unwrap();
             writeln!(w, "pair {} {} {}", name, fmt_items(&b), fmt_items(&a)).unwrap();
+        }
+
+        // empty items of a type with pre-agreed size 0 (table `syn`): new, unchanged, deleted, between
+        // other items, several ids
+        for (a, b) in [
+            ("-", "40.1:"),
+            ("40.1:", "40.1:"),
+            ("40.1:", "-"),
+            ("40.1:;41.1:5", "40.1:;40.2:;41.1:6"),
+            ("5.1:1,2;40.7:", "5.1:1,3;40.7:;40.8:;42.1:1,2;43.1:1,2,3"),
+            ("40.1:;40.2:;40.3:", "40.2:;40.4:"),
+            ("32769.1:4;40.65535:", "32769.1:5;40.65535:;40.0:"),
+        ] {
+            writeln!(w, "pair syn {} {}", a, b).unwrap();
+            writeln!(w, "pair syn {} {}", b, a).unwrap();
         }
 
         // exact limit snapshots, written and read back (raw level): 1023 / 1024 items, 65532 / 65536 bytes
@@ -1875,7 +1911,7 @@ fn gen_all(tier: &str, seed: u64, w: &mut dyn Write) {
         // 4. parser streams: valid snapshots / deltas, corrupted, truncated, random
         let n = if thorough { 30000 } else { 2500 };
         for i in 0..n {
-            let (name, osz) = tables[i % 4];
+            let (name, osz) = tables[i % 5];
             let na = *rng.pick(&[0usize, 1, 2, 3, 4, 6]);
             let mut a = gen_items(&mut rng, osz, na, false);
             add_registry(&mut rng, &mut a);
@@ -1946,7 +1982,7 @@ fn gen_all(tier: &str, seed: u64, w: &mut dyn Write) {
         // small snapshots and deltas
         let reps = if thorough { 12 } else { 2 };
         for r in 0..reps {
-            let (name, osz) = tables[r % 4];
+            let (name, osz) = tables[r % 5];
             let mut a = gen_items(&mut rng, osz, 3, false);
             add_registry(&mut rng, &mut a);
             let mut b = gen_target(&mut rng, osz, &a, false, false);
@@ -2063,7 +2099,7 @@ fn gen_all(tier: &str, seed: u64, w: &mut dyn Write) {
         // deleted and updated, sizes different from the base item, wrong counts, non-zero padding
         let n = if thorough { 6000 } else { 600 };
         for i in 0..n {
-            let (name, osz) = tables[i % 4];
+            let (name, osz) = tables[i % 5];
             let na = rng.below(5) as usize;
             let mut a = gen_items(&mut rng, osz, na, false);
             add_registry(&mut rng, &mut a);
